@@ -55,7 +55,7 @@ impl TopicName {
 //@ proof-start { lit_ax::lit_bytes(); lits::lits_shape(); }
 //@ proof-before[C18] /^\s*Some\(TopicName \{\s*$/ { let s = unparsed.spec_bytes(); let n = project_id.spec_bytes().len() as int; assert(s.subrange(9, s.len() as int).subrange(0, n) =~= s.subrange(9, 9 + n)); lemma_accept(s, mid_topics(), project_id.spec_bytes(), topic_id.spec_bytes()); }
 //@ closure 1 ret tr: &str
-//@ closure 1 ensures tr.spec_bytes() == trimmed(s.spec_bytes(), 47u8)
+//@ closure 1 ensures tr.spec_bytes() == trimmed($1.spec_bytes(), 47u8)
 //@end
 }
 }
@@ -91,7 +91,7 @@ impl SubscriptionName {
 //@ proof-start { lit_ax::lit_bytes(); lits::lits_shape(); }
 //@ proof-before[C18] /^\s*Some\(SubscriptionName \{\s*$/ { let s = unparsed.spec_bytes(); let n = project_id.spec_bytes().len() as int; assert(s.subrange(9, s.len() as int).subrange(0, n) =~= s.subrange(9, 9 + n)); lemma_accept(s, mid_subs(), project_id.spec_bytes(), subscription_id.spec_bytes()); }
 //@ closure 1 ret tr: &str
-//@ closure 1 ensures tr.spec_bytes() == trimmed(s.spec_bytes(), 47u8)
+//@ closure 1 ensures tr.spec_bytes() == trimmed($1.spec_bytes(), 47u8)
 //@end
 }
 }
